@@ -2625,7 +2625,7 @@ def _raw(BioSeq, data):
     return s
 
 
-LEVEL_TEXT = ('Machine-checked Coq theorems (67, all closed under the global context), for every list/str and every integer or None bound: '
+LEVEL_TEXT = ('Machine-checked Coq theorems (69, all closed under the global context), for every list/str and every integer or None bound: '
               'CPython slice normalisation (PySlice_AdjustIndices) yields firstn/skipn of the clamped bounds for contiguous slices, the '
               'slice-length formula and the element law r[k] = s[start + k*step] for every step, s[::-1] = rev s, s[:k] + s[k:] = s, the '
               'negative-index law; BioSeq indexing/slicing, len, +, +=, right + equal the str operation on the residue string; == against any '
@@ -2663,7 +2663,9 @@ LEVEL_TEXT = ('Machine-checked Coq theorems (67, all closed under the global con
               'GAP-AWARE ANY STEP: gap_any_step_as_is (start/stop are mapped to columns by adj - five cases - and the step is applied '
               'to columns; result upper-cased); gap_reverse_whole (for [::-1] "same residues as the degapped slice" survives); '
               'gap_step_refuted: it does NOT survive in general - witnesses "A-CG".sl(gap="-")[::2] = "AC" (degapped "AG") and, with no '
-              'gap at all, "ACG".sl(gap="-")[:-100:-1] = "GC" ("ACG"[:-100:-1] = "GCA"). '
+              'gap at all, "ACG".sl(gap="-")[:-100:-1] = "GC" ("ACG"[:-100:-1] = "GCA"); gap_free_positive_step: for a sequence '
+              'without gap characters and every step > 0 the gap-aware subscript IS the plain one; slice_lower_is_slice_of_upper: '
+              'subscripts commute with upper(), so seq[ix] of a sequence holding lower case = BioSeq(same residues)[ix]. '
               'The model is tied to sugar by '
               'differential testing (exhaustive box over {A,C,-}^<=5 x {None,-7..7}^3 in the thorough tier, random cases, 600 multi-step '
               'histories on shared objects and 270 object-store histories with duplicates in the quick tier) and the .str methods are '
